@@ -149,6 +149,14 @@ type fakeServer struct {
 	onWrite  func(client string, data []byte)
 	stopC    chan struct{}
 	errC     chan error
+	// per client id: the end of a connection is reported before the next connection of the id is announced
+	// (what ws.server guarantees since /repo 3413323)
+	linkMu sync.Map
+}
+
+func (s *fakeServer) idLock(id string) *sync.Mutex {
+	m, _ := s.linkMu.LoadOrStore(id, &sync.Mutex{})
+	return m.(*sync.Mutex)
 }
 
 func newFakeServer() *fakeServer {
@@ -225,6 +233,9 @@ func (s *fakeServer) Write(id string, data []byte) error {
 
 // environment events
 func (s *fakeServer) connect(id string) {
+	lm := s.idLock(id)
+	lm.Lock()
+	defer lm.Unlock()
 	s.mu.Lock()
 	s.clients[id] = true
 	h := s.onNew
@@ -234,6 +245,9 @@ func (s *fakeServer) connect(id string) {
 	}
 }
 func (s *fakeServer) disconnect(id string) {
+	lm := s.idLock(id)
+	lm.Lock()
+	defer lm.Unlock()
 	s.mu.Lock()
 	was := s.clients[id]
 	delete(s.clients, id)
